@@ -52,21 +52,22 @@ theorem realloc_null_refines (s : Seq) (owned : List (Addr × Nat)) (old new sid
       Seq.step, untrack, removeAlloc, fetchSub, track, putAlloc, mkInfo, tick, fetchAdd, addStack]
 
 theorem realloc_keep_refines (s : Seq) (owned : List (Addr × Nat)) (p g old new sid : Nat) (hp : p ≠ 0) (hn : new ≠ 0)
-    (ho : owned.lookup p = some g) (hlive : s.par.live p = true) :
+    (ho : owned.lookup p = some g) (hlive : s.par.live p = true) (hok : s.par.reallocOK p old new p = true) :
     Completes (runAlone s owned (.realloc p old new sid) p)
       (s.step (.realloc p old new p sid)).1.tr (s.step (.realloc p old new p sid)).1.par := by
   obtain ⟨tr, par⟩ := s
   cases hfd : tr.allocs.find p <;> cases hl : tr.level <;>
-    simp [Completes, runAlone, Sys.ofSeq, alone, step, start, startRelease, advance, takeLock, afterUntrack, hp, hn, ho, hlive, hl, hfd,
-      Seq.step, untrack, removeAlloc, fetchSub, track, putAlloc, mkInfo, tick, fetchAdd, addStack] at hlive ⊢
+    simp [Completes, runAlone, Sys.ofSeq, alone, step, start, startRelease, advance, takeLock, afterUntrack, hp, hn, ho, hlive, hok, hl, hfd,
+      Seq.step, untrack, removeAlloc, fetchSub, track, putAlloc, mkInfo, tick, fetchAdd, addStack] at hlive hok ⊢
 
 theorem realloc_move_refines (s : Seq) (owned : List (Addr × Nat)) (p g old new sid dest : Nat) (hp : p ≠ 0) (hn : new ≠ 0)
-    (ho : owned.lookup p = some g) (hlive : s.par.live p = true) (hd : dest ≠ p) (hf : freshAddr s.par dest = true) :
+    (ho : owned.lookup p = some g) (hlive : s.par.live p = true) (hd : dest ≠ p) (hf : freshAddr s.par dest = true)
+    (hok : s.par.reallocOK p old new dest = true) :
     Completes (runAlone s owned (.realloc p old new sid) dest)
       (s.step (.realloc p old new dest sid)).1.tr (s.step (.realloc p old new dest sid)).1.par := by
   obtain ⟨tr, par⟩ := s
   cases hfd : tr.allocs.find p <;> cases hl : tr.level <;>
-    simp [Completes, runAlone, Sys.ofSeq, alone, step, start, startRelease, advance, takeLock, afterUntrack, hp, hn, ho, hlive, hd, hf, hl, hfd,
-      Seq.step, untrack, removeAlloc, fetchSub, track, putAlloc, mkInfo, tick, fetchAdd, addStack] at hlive ⊢
+    simp [Completes, runAlone, Sys.ofSeq, alone, step, start, startRelease, advance, takeLock, afterUntrack, hp, hn, ho, hlive, hd, hf, hok, hl, hfd,
+      Seq.step, untrack, removeAlloc, fetchSub, track, putAlloc, mkInfo, tick, fetchAdd, addStack] at hlive hok ⊢
 
 end AwsVerif.Proofs.C17
